@@ -382,11 +382,11 @@ class SymInt(Sym):
 
     @_defer
     def __mul__(self, o):
-        return self._bin(o, lambda a, b: a * b)
+        return _ovf(self._bin(o, lambda a, b: a * b))
 
     @_defer
     def __rmul__(self, o):
-        return self._bin(o, lambda a, b: a * b, True)
+        return _ovf(self._bin(o, lambda a, b: a * b, True))
 
     @_defer
     def __floordiv__(self, o):
@@ -448,6 +448,17 @@ class SymInt(Sym):
 
     def __format__(self, spec):
         return format(self.__index__(), spec)
+
+
+def _ovf(r):
+    if cfg.check_int64 and isinstance(r, SymInt) and Ctx.cur is not None:
+        lim = 2 ** 63
+        if z3.is_int_value(r.e):
+            if not (-lim <= r.e.as_long() < lim):
+                Ctx.cur.event("int-overflow", value=str(r.e))
+        elif Ctx.cur.feasible(z3.Or(r.e >= lim, r.e < -lim)):
+            Ctx.cur.event("int-overflow", value=str(r.e)[:120])
+    return r
 
 
 _LOGCONST = {}
@@ -1084,6 +1095,7 @@ def _wrap_store(v, rng, ldtype):
 
 class _Cfg:
     concrete_ints = False  # integer arrays created by the facade are real numpy arrays
+    check_int64 = False  # emit an `int-overflow` event when an integer product can leave int64
 
 
 cfg = _Cfg()
